@@ -22,6 +22,16 @@ pub const PROP: super::Prop = super::Prop {
     replay,
 };
 
+/// Is the finding listed in known_findings.json with status "known"?  Only then is its clause
+/// skipped (and counted as excluded) in the main search; "fixed" or no entry re-arms the clause.
+fn is_known(id: &str) -> bool {
+    static KNOWN: std::sync::OnceLock<Vec<String>> = std::sync::OnceLock::new();
+    KNOWN
+        .get_or_init(|| crate::engine::load_findings().into_iter().filter(|f| f.property == "C04" && f.status == "known").map(|f| f.id).collect())
+        .iter()
+        .any(|k| k == id)
+}
+
 #[derive(Clone, Copy, Debug, Serialize, Deserialize, PartialEq, Eq)]
 pub enum StreamMode {
     /// victim reads and writes back
@@ -82,6 +92,84 @@ pub struct Scenario {
     /// probe mode: also assert the clause that known finding F-C04-2 excludes in the main search
     #[serde(default)]
     pub strict_known: bool,
+    /// number of victim hosts `v0..`; 0 = legacy (2 with `flags.two_victims`, else 1)
+    #[serde(default)]
+    pub nvict: usize,
+    /// order in which the victims are registered with the Sim (a permutation of 0..nvict; anything
+    /// else = natural order).  A regex resolves to its matches in registration order.
+    #[serde(default)]
+    pub reg_order: Vec<usize>,
+    /// crash / bounce target of `ctl[k]`; missing or mask 0 = legacy selection (all victims by regex with
+    /// `flags.by_regex`, all of a single victim by name, else `v0` by name)
+    #[serde(default)]
+    pub targets: Vec<Target>,
+}
+
+/// Which hosts one `Sim::crash` / `Sim::bounce` call addresses.
+#[derive(Clone, Copy, Debug, Default, Serialize, Deserialize, PartialEq, Eq)]
+pub struct Target {
+    /// bit v set = victim v is addressed (several bits = one regex matching exactly those hosts)
+    pub mask: u8,
+    /// a single victim is addressed by its host name instead of a regex
+    pub by_name: bool,
+}
+
+pub const MAX_VICT: usize = 3;
+
+fn nvict_of(sc: &Scenario) -> usize {
+    if sc.nvict > 0 {
+        sc.nvict.min(MAX_VICT)
+    } else if sc.flags.two_victims {
+        2
+    } else {
+        1
+    }
+}
+
+fn reg_order_of(sc: &Scenario, nvict: usize) -> Vec<usize> {
+    let mut seen = vec![false; nvict];
+    let ok = sc.reg_order.len() == nvict && sc.reg_order.iter().all(|v| *v < nvict && !std::mem::replace(&mut seen[*v], true));
+    if ok {
+        sc.reg_order.clone()
+    } else {
+        (0..nvict).collect()
+    }
+}
+
+/// (victims addressed by ctl[k], addressed by name?)
+fn target_of(sc: &Scenario, k: usize, nvict: usize) -> (Vec<usize>, bool) {
+    let all = ((1u16 << nvict) - 1) as u8;
+    match sc.targets.get(k).filter(|t| t.mask & all != 0) {
+        Some(t) => {
+            let sel: Vec<usize> = (0..nvict).filter(|v| t.mask >> v & 1 == 1).collect();
+            let by_name = t.by_name && sel.len() == 1;
+            (sel, by_name)
+        }
+        None => {
+            if sc.flags.by_regex {
+                ((0..nvict).collect(), false)
+            } else {
+                (vec![0], true)
+            }
+        }
+    }
+}
+
+/// A regex that matches exactly the host names of the selected victims.
+fn regex_for(sel: &[usize]) -> regex::Regex {
+    let digits: String = sel.iter().map(|v| v.to_string()).collect();
+    regex::Regex::new(&format!("^v[{digits}]$")).unwrap()
+}
+
+fn nth_perm(n: usize, mut k: usize) -> Vec<usize> {
+    let mut items: Vec<usize> = (0..n).collect();
+    let mut out = Vec::new();
+    for i in (1..=n).rev() {
+        let f: usize = (1..i).product();
+        out.push(items.remove((k / f) % i));
+        k %= f;
+    }
+    out
 }
 
 #[derive(Clone, Debug, Default)]
@@ -482,7 +570,13 @@ struct RunOut {
 fn execute(sc: &Scenario, with_ctl: bool) -> RunOut {
     let tick = sc.tick_ms.max(1) as u64;
     let lat = sc.lat_ms.max(1) as u64;
-    let nvict = if sc.flags.two_victims { 2 } else { 1 };
+    let nvict = nvict_of(sc);
+    let reg_order = reg_order_of(sc, nvict);
+    // rank[v] = position of victim v in the registration order
+    let mut rank = vec![0usize; nvict];
+    for (pos, v) in reg_order.iter().enumerate() {
+        rank[*v] = pos;
+    }
     let sh = Rc::new(Shared::default());
     let mut b = turmoil::Builder::new();
     b.tick_duration(Duration::from_millis(tick))
@@ -504,7 +598,7 @@ fn execute(sc: &Scenario, with_ctl: bool) -> RunOut {
         let (sh2, sc2) = (sh.clone(), sc.clone());
         sim.host("p", move || peer(sh2.clone(), sc2.clone(), nvict));
     }
-    for v in 0..nvict {
+    for v in reg_order.iter().cloned() {
         let (sh2, sc2) = (sh.clone(), sc.clone());
         let name = format!("v{v}");
         sim.host(name.clone(), move || {
@@ -533,8 +627,6 @@ fn execute(sc: &Scenario, with_ctl: bool) -> RunOut {
     out.total = total;
     let mut down = vec![false; nvict];
     let mut frozen: Vec<u64> = vec![0; nvict];
-    // which victims an action selects
-    let selected: Vec<usize> = if sc.flags.by_regex || !sc.flags.two_victims { (0..nvict).collect() } else { vec![0] };
     macro_rules! fail {
         ($sig:expr, $det:expr) => {{
             if out.fail.is_none() {
@@ -542,53 +634,83 @@ fn execute(sc: &Scenario, with_ctl: bool) -> RunOut {
             }
         }};
     }
+    let live_of = |v: usize| sh.live.borrow().get(&format!("v{v}")).copied().unwrap_or(0);
+    let starts_of = |v: usize| sh.starts.borrow().get(&format!("v{v}")).copied().unwrap_or(0);
     for done in 0..total {
         if with_ctl {
-            for (at, c) in &sc.ctl {
+            for (k, (at, c)) in sc.ctl.iter().enumerate() {
                 if *at as u64 != done {
                     continue;
                 }
+                let (sel, by_name) = target_of(sc, k, nvict);
+                let how = if by_name { format!("name v{}", sel[0]) } else { format!("regex {}", regex_for(&sel).as_str()) };
+                // victims this call must leave alone: (victim, live guards, factory calls) before the call
+                let others: Vec<(usize, i64, u64)> = (0..nvict).filter(|v| !sel.contains(v)).map(|v| (v, live_of(v), starts_of(v))).collect();
+                // a victim that goes down now (crash of a running host, bounce of a running host):
+                // record the protocol phase and the peer writers parked on it at this instant
+                let going_down = |v: usize, out: &mut RunOut| {
+                    let conns = sh.conns.borrow();
+                    let est = conns.values().filter(|c| c.victim == v && c.connected_step.is_some() && c.reader_end.is_none()).count();
+                    let pend = conns.values().filter(|c| c.victim == v && c.connected_step.is_none() && c.connect_err.is_none()).count();
+                    if est > 0 {
+                        out.phase_labels.push("phase:established-stream".into());
+                    }
+                    if pend > 0 {
+                        out.phase_labels.push("phase:connect-pending".into());
+                    }
+                    for (ci, c) in conns.iter() {
+                        if c.victim == v && c.writer_blocked && c.connected_step.is_some() && c.writer_end.is_none() {
+                            out.phase_labels.push("phase:peer-writer-blocked".into());
+                            out.writers_blocked_at_crash.push((*ci, done));
+                        }
+                    }
+                    if est == 0 && pend == 0 {
+                        out.phase_labels.push("phase:no-connection".into());
+                    }
+                };
                 match c {
                     Ctl::Crash => {
-                        // phase labels at the crash instant
-                        for v in &selected {
-                            let conns = sh.conns.borrow();
-                            let est = conns.values().filter(|c| c.victim == *v && c.connected_step.is_some() && c.reader_end.is_none()).count();
-                            let pend = conns.values().filter(|c| c.victim == *v && c.connected_step.is_none() && c.connect_err.is_none()).count();
-                            if est > 0 {
-                                out.phase_labels.push("phase:established-stream".into());
-                            }
-                            if pend > 0 {
-                                out.phase_labels.push("phase:connect-pending".into());
-                            }
-                            for (ci, c) in conns.iter() {
-                                if c.victim == *v && c.writer_blocked && c.connected_step.is_some() && c.writer_end.is_none() {
-                                    out.phase_labels.push("phase:peer-writer-blocked".into());
-                                    out.writers_blocked_at_crash.push((*ci, done));
-                                }
-                            }
-                            if est == 0 && pend == 0 {
-                                out.phase_labels.push("phase:no-connection".into());
+                        for v in &sel {
+                            if !down[*v] {
+                                going_down(*v, &mut out);
                             }
                         }
-                        let before = trace::len();
-                        if sc.flags.by_regex || sc.flags.two_victims && selected.len() == 2 {
-                            sim.crash(regex::Regex::new("^v[0-9]$").unwrap());
+                        // target classes
+                        let n_down = sel.iter().filter(|v| down[**v]).count();
+                        out.phase_labels.push(if by_name { "crash-target:name" } else if sel.len() == 1 { "crash-target:regex-one-host" } else { "crash-target:regex-several-hosts" }.into());
+                        if n_down > 0 && n_down < sel.len() {
+                            out.phase_labels.push("crash-target:some-matched-hosts-already-down".into());
+                            let first_up = sel.iter().filter(|v| !down[**v]).map(|v| rank[*v]).min().unwrap();
+                            let last_up = sel.iter().filter(|v| !down[**v]).map(|v| rank[*v]).max().unwrap();
+                            let first_down = sel.iter().filter(|v| down[**v]).map(|v| rank[*v]).min().unwrap();
+                            if first_down < last_up {
+                                out.phase_labels.push("crash-target:down-host-registered-before-running-match".into());
+                            }
+                            if first_down > first_up {
+                                out.phase_labels.push("crash-target:down-host-registered-after-running-match".into());
+                            }
+                        } else if n_down > 0 {
+                            out.phase_labels.push("crash-target:all-matched-hosts-already-down".into());
+                        }
+                        if by_name {
+                            sim.crash(format!("v{}", sel[0]));
                         } else {
-                            sim.crash("v0");
+                            sim.crash(regex_for(&sel));
                         }
-                        let _ = before;
-                        for v in &selected {
+                        for v in &sel {
                             let name = format!("v{v}");
-                            let live = sh.live.borrow().get(&name).copied().unwrap_or(0);
+                            let live = live_of(*v);
                             if live != 0 {
-                                fail!("tasks-not-dropped-when-crash-returns", format!("{name}: {live} task guards still alive after Sim::crash returned (crash after step {done})"));
+                                fail!(
+                                    "tasks-not-dropped-when-crash-returns",
+                                    format!("{name}: {live} task guards still alive after Sim::crash({how}) returned (crash after step {done}; registration order {reg_order:?}, down before the call {down:?})")
+                                );
                             }
                             let counts = sim.verif_socket_counts(name.as_str());
                             if counts != (0, 0, 0, 0) {
                                 fail!(
                                     "sockets-not-released-by-crash",
-                                    format!("{name}: (udp binds, tcp listeners, tcp streams, multicast memberships) = {counts:?} after Sim::crash returned (crash after step {done})")
+                                    format!("{name}: (udp binds, tcp listeners, tcp streams, multicast memberships) = {counts:?} after Sim::crash({how}) returned (crash after step {done})")
                                 );
                             }
                             if !down[*v] {
@@ -597,26 +719,31 @@ fn execute(sc: &Scenario, with_ctl: bool) -> RunOut {
                             }
                             frozen[*v] = sh.progress.borrow().get(&name).copied().unwrap_or(0);
                             if sim.is_host_running(name.as_str()) {
-                                fail!("crashed-host-reported-running", format!("{name}"));
+                                fail!("crashed-host-reported-running", format!("{name} after Sim::crash({how}); registration order {reg_order:?}"));
                             }
                         }
                     }
                     Ctl::Bounce => {
-                        let starts_before: Vec<u64> = selected.iter().map(|v| sh.starts.borrow().get(&format!("v{v}")).copied().unwrap_or(0)).collect();
-                        if sc.flags.by_regex || sc.flags.two_victims && selected.len() == 2 {
-                            sim.bounce(regex::Regex::new("^v[0-9]$").unwrap());
-                        } else {
-                            sim.bounce("v0");
-                        }
-                        for (k, v) in selected.iter().enumerate() {
-                            let name = format!("v{v}");
-                            let st = sh.starts.borrow().get(&name).copied().unwrap_or(0);
-                            if st != starts_before[k] + 1 {
-                                fail!("bounce-did-not-start-software-exactly-once", format!("{name}: factory calls {} -> {st} across one bounce", starts_before[k]));
+                        let starts_before: Vec<u64> = sel.iter().map(|v| starts_of(*v)).collect();
+                        for v in &sel {
+                            if !down[*v] {
+                                going_down(*v, &mut out);
                             }
-                            let live = sh.live.borrow().get(&name).copied().unwrap_or(0);
+                        }
+                        if by_name {
+                            sim.bounce(format!("v{}", sel[0]));
+                        } else {
+                            sim.bounce(regex_for(&sel));
+                        }
+                        for (k, v) in sel.iter().enumerate() {
+                            let name = format!("v{v}");
+                            let st = starts_of(*v);
+                            if st != starts_before[k] + 1 {
+                                fail!("bounce-did-not-start-software-exactly-once", format!("{name}: factory calls {} -> {st} across one Sim::bounce({how})", starts_before[k]));
+                            }
+                            let live = live_of(*v);
                             if live != 0 {
-                                fail!("old-tasks-alive-after-bounce", format!("{name}: {live} guards alive right after Sim::bounce returned"));
+                                fail!("old-tasks-alive-after-bounce", format!("{name}: {live} guards alive right after Sim::bounce({how}) returned"));
                             }
                             if down[*v] {
                                 down[*v] = false;
@@ -627,9 +754,22 @@ fn execute(sc: &Scenario, with_ctl: bool) -> RunOut {
                             }
                             out.inc_start[*v].push(done);
                             if !sim.is_host_running(name.as_str()) {
-                                fail!("bounced-host-not-running", format!("{name}"));
+                                fail!("bounced-host-not-running", format!("{name} after Sim::bounce({how})"));
                             }
                         }
+                    }
+                }
+                // hosts the call did not address are left exactly as they were
+                for (v, live_b, starts_b) in others {
+                    let name = format!("v{v}");
+                    if live_of(v) != live_b || starts_of(v) != starts_b {
+                        fail!(
+                            "crash-or-bounce-touched-a-host-it-did-not-address",
+                            format!("{name}: live task guards {live_b} -> {}, factory calls {starts_b} -> {} across {c:?}({how})", live_of(v), starts_of(v))
+                        );
+                    }
+                    if sim.is_host_running(name.as_str()) == down[v] {
+                        fail!("crash-or-bounce-touched-a-host-it-did-not-address", format!("{name}: is_host_running = {} after {c:?}({how}) although the host was {}", down[v], if down[v] { "down" } else { "up" }));
                     }
                 }
             }
@@ -648,7 +788,7 @@ fn execute(sc: &Scenario, with_ctl: bool) -> RunOut {
                 if p != frozen[v] {
                     fail!("crashed-host-code-still-runs", format!("{name}: progress {} -> {p} during step {} while crashed", frozen[v], done + 1));
                 }
-                let live = sh.live.borrow().get(&name).copied().unwrap_or(0);
+                let live = live_of(v);
                 if live != 0 {
                     fail!("crashed-host-has-live-tasks", format!("{name}: {live}"));
                 }
@@ -671,7 +811,7 @@ pub fn run(sc: &Scenario) -> Outcome {
     let tick = sc.tick_ms.max(1) as u64;
     let lat = sc.lat_ms.max(1) as u64;
     let ceil_l = lat.div_ceil(tick);
-    let nvict = if sc.flags.two_victims { 2 } else { 1 };
+    let nvict = nvict_of(sc);
     let (r, _events) = trace::capture(|| execute(sc, true));
     if let Some((sig, det)) = r.fail.clone() {
         out.fail(sig, det);
@@ -682,7 +822,13 @@ pub fn run(sc: &Scenario) -> Outcome {
         out.fail("harness-io-error", format!("{:?}", sh.errors.borrow()));
         return out;
     }
-    let selected: Vec<usize> = if sc.flags.by_regex || !sc.flags.two_victims { (0..nvict).collect() } else { vec![0] };
+    // victims that no crash / bounce of the scenario addresses
+    let mut never_targeted = vec![true; nvict];
+    for k in 0..sc.ctl.len() {
+        for v in target_of(sc, k, nvict).0 {
+            never_targeted[v] = false;
+        }
+    }
     // (6) factory calls
     for v in 0..nvict {
         let name = format!("v{v}");
@@ -704,7 +850,8 @@ pub fn run(sc: &Scenario) -> Outcome {
     for v in 0..nvict {
         let name = format!("v{v}");
         for (n, st) in r.inc_start[v].iter().enumerate() {
-            let end = r.downs[v].iter().map(|d| d.0).find(|c| *c > *st).unwrap_or(r.total);
+            // downs[v][n] is the down-going that ended incarnation n (every bounce starts a new one)
+            let end = r.downs[v].get(n).map(|d| d.0).unwrap_or(r.total);
             if end >= st + 2 {
                 let bound = sh.binds.borrow().iter().any(|(h, i, w, e)| *h == name && *i == n as u64 && *w == "tcp" && e.is_none());
                 if !bound {
@@ -753,7 +900,7 @@ pub fn run(sc: &Scenario) -> Outcome {
         // bound, group joined) and is not crashed before the datagram arrives (+2 steps of slack)
         let Some(n) = r.inc_start[*v].iter().rposition(|st| *st < *k) else { continue };
         let st = r.inc_start[*v][n];
-        let next_crash = r.downs[*v].iter().map(|d| d.0).find(|c| *c >= st).unwrap_or(u64::MAX);
+        let next_crash = r.downs[*v].get(n).map(|d| d.0).unwrap_or(u64::MAX);
         if *k >= st + 4 && j + 2 <= next_crash && j + 2 <= r.total {
             must_dgrams += 1;
             if !got_dgram.contains(&(*v, *seq)) {
@@ -769,6 +916,7 @@ pub fn run(sc: &Scenario) -> Outcome {
     out.count("datagrams that had to be received", must_dgrams);
     // connections
     let mut unblocked_checked = 0u64;
+    let (mut parked_writers, mut parked_writers_released, mut parked_writers_released_after_bounce) = (0u64, 0u64, 0u64);
     for (i, c) in sh.conns.borrow().iter() {
         let v = c.victim;
         let j = c.send_step + ceil_l; // SYN delivered at the victim's turn in step j
@@ -781,8 +929,10 @@ pub fn run(sc: &Scenario) -> Outcome {
             }
             // after a bounce it must be resolved
             if let Some((_, Some(b))) = r.downs[v].iter().find(|(cr, b)| j > *cr && b.map(|b| j <= b).unwrap_or(true)) {
-                if b + 4 <= r.total && c.connect_err.is_none() {
-                    out.fail("connect-from-downtime-still-pending-after-bounce", format!("conn {i} to v{v}: SYN arrived step {j} during downtime, host bounced at boundary {b}, still pending at the end (step {})", r.total));
+                // the first step the host actually runs again (it may be crashed again on the spot)
+                let t_up = (b + 1..=r.total).find(|t| !in_down(v, *t));
+                if t_up.map(|t| t + ceil_l + 3 <= r.total).unwrap_or(false) && c.connect_err.is_none() {
+                    out.fail("connect-from-downtime-still-pending-after-bounce", format!("conn {i} to v{v}: SYN arrived step {j} during downtime, host bounced at boundary {b} and running again in step {t_up:?}, still pending at the end (step {})", r.total));
                     return out;
                 }
             }
@@ -844,18 +994,43 @@ pub fn run(sc: &Scenario) -> Outcome {
                         }
                     }
                     // writer blocked on flow control at the crash instant
-                    if c.writer_end.is_none() && c.writer_blocked && r.writers_blocked_at_crash.iter().any(|(ci, b)| ci == i && b == cr) {
+                    let parked_at_crash = r.writers_blocked_at_crash.iter().any(|(ci, b)| ci == i && b == cr);
+                    if parked_at_crash {
+                        parked_writers += 1;
+                    }
+                    if c.writer_end.is_none() && c.writer_blocked && parked_at_crash {
                         // did the victim hold unread data of this stream when it crashed? then its
                         // drop sends a RST; otherwise only a FIN (which cannot unblock a writer)
                         let victim_never_reads = c.accept_side || matches!(sc.flags.stream_mode, StreamMode::Idle | StreamMode::Writer);
                         let delivered_before_crash = cs + ceil_l <= *cr;
+                        // The segments that filled the window were all sent by step cr, so they have
+                        // reached the victim's address by step cr + ceil_l (+1 slack).  The first step
+                        // from then on that the victim RUNS (it has been bounced) hands them to a stack
+                        // that has no such connection, which must answer with a reset; that reaches
+                        // the peer one latency later.
+                        let t_up = (cr + ceil_l + 1..=r.total).find(|t| !in_down(v, *t));
+                        let reset_deadline = t_up.map(|t| t + ceil_l + 3).filter(|d| *d <= r.total);
                         if victim_never_reads && delivered_before_crash {
                             out.fail(
                                 "peer-write-hangs-after-crash:victim-had-unread-data",
                                 format!("conn {i} to v{v}: peer's write was blocked on flow control when the host crashed after step {cr} (victim held unread data, so a RST was sent) and is still blocked at step {}", r.total),
                             );
                             return out;
-                        } else if sc.strict_known {
+                        } else if let Some(d) = reset_deadline {
+                            // behind F-C04-2: the peer may (known finding) stay parked while the host
+                            // is down, but not for ever: once the host is back its stack sees the
+                            // stale segments and the peer must be released
+                            out.fail(
+                                "peer-write-still-hangs-after-bounce:stale-segments-never-reset",
+                                format!(
+                                    "conn {i} to v{v}: peer's write was blocked on flow control (window full, segments on the wire) when the host went down after step {cr}; downs {:?}; the host runs again from step {} on, the stale segments had arrived by then, yet the write is still blocked at step {} (deadline {d})",
+                                    r.downs[v],
+                                    t_up.unwrap(),
+                                    r.total
+                                ),
+                            );
+                            return out;
+                        } else if sc.strict_known || !is_known("F-C04-2") {
                             out.fail(
                                 "peer-write-hangs-after-crash:victim-had-no-unread-data",
                                 format!("conn {i} to v{v}: peer's write was blocked on flow control when the host crashed after step {cr} and is still blocked at step {} (victim had consumed everything delivered, so only a FIN was sent)", r.total),
@@ -863,6 +1038,16 @@ pub fn run(sc: &Scenario) -> Outcome {
                             return out;
                         } else {
                             out.exclude("F-C04-2");
+                        }
+                    } else if parked_at_crash {
+                        if let Some((_, at)) = &c.writer_end {
+                            if *at > *cr {
+                                parked_writers_released += 1;
+                                let bounced = r.downs[v].iter().find(|(c0, _)| c0 == cr).and_then(|d| d.1);
+                                if bounced.map(|b| *at > b + 1).unwrap_or(false) && bounced != Some(*cr) {
+                                    parked_writers_released_after_bounce += 1;
+                                }
+                            }
                         }
                     }
                 }
@@ -893,13 +1078,13 @@ pub fn run(sc: &Scenario) -> Outcome {
             }
         }
         // the peer's own guards/clock are not affected either: its connections to the *other* victim
-        if sc.flags.two_victims && selected.len() == 1 {
+        if never_targeted.iter().any(|n| *n) {
             for (i, c) in sh.conns.borrow().iter() {
-                if c.victim == 1 {
+                if never_targeted[c.victim] {
                     let t = twin.sh.conns.borrow().get(i).cloned();
                     if let Some(t) = t {
-                        if t.connected_step != c.connected_step || t.reader_end != c.reader_end || t.connect_err != c.connect_err {
-                            out.fail("other-host-connection-disturbed-by-crash", format!("conn {i} to v1 (not crashed): {c:?} vs twin {t:?}"));
+                        if t.connected_step != c.connected_step || t.reader_end != c.reader_end || t.connect_err != c.connect_err || t.writer_end != c.writer_end {
+                            out.fail("other-host-connection-disturbed-by-crash", format!("conn {i} to v{} (never crashed or bounced): {c:?} vs twin {t:?}", c.victim));
                             return out;
                         }
                     }
@@ -920,7 +1105,10 @@ pub fn run(sc: &Scenario) -> Outcome {
         (f.multicast, "multicast"),
         (f.fs, "fs"),
         (f.outgoing, "outgoing-conn"),
-        (f.two_victims, "two-victims"),
+        (nvict == 2, "two-victims"),
+        (nvict == 3, "three-victims"),
+        (never_targeted.iter().any(|n| *n), "a-victim-host-never-addressed"),
+        (reg_order_of(sc, nvict) != (0..nvict).collect::<Vec<_>>(), "registration-order-permuted"),
         (f.by_regex, "regex-select"),
     ] {
         if on {
@@ -940,6 +1128,12 @@ pub fn run(sc: &Scenario) -> Outcome {
         out.label("datagrams-during-downtime");
     }
     out.count("peer connections checked for prompt unblocking/refusal", unblocked_checked);
+    out.count("peer writers parked on flow control when the host went down", parked_writers);
+    out.count("  of these released (write failed) later", parked_writers_released);
+    out.count("  of these released only after the host was bounced (stale segments reset)", parked_writers_released_after_bounce);
+    if parked_writers_released_after_bounce > 0 {
+        out.label("parked-writer-reset-after-bounce");
+    }
     out.nontrivial = r.phase_labels.iter().any(|l| l != "phase:no-connection") || (f.multicast && ncrash > 0) || (f.fs && ncrash > 0) || dgram_down > 0;
     out
 }
@@ -971,42 +1165,206 @@ fn flags_strategy() -> BoxedStrategy<Flags> {
         .boxed()
 }
 
+fn target_strategy() -> BoxedStrategy<Target> {
+    prop_oneof![
+        // every victim with one regex
+        2 => Just(Target { mask: 0b111, by_name: false }),
+        // any non-empty subset: one victim by name or by regex, several victims by one regex
+        4 => (1u8..8, any::<bool>()).prop_map(|(mask, by_name)| Target { mask, by_name }),
+        // two of three victims
+        2 => prop_oneof![Just(0b011u8), Just(0b101u8), Just(0b110u8)].prop_map(|mask| Target { mask, by_name: false }),
+    ]
+    .boxed()
+}
+
+/// Bring raw targets into canonical form for `nvict` victims and `n` actions.
+fn normalise_targets(raw: &[Target], n: usize, nvict: usize) -> Vec<Target> {
+    let all = ((1u16 << nvict) - 1) as u8;
+    (0..n)
+        .map(|k| {
+            let t = raw.get(k).copied().unwrap_or(Target { mask: all, by_name: false });
+            let mask = if t.mask & all == 0 { all } else { t.mask & all };
+            Target { mask, by_name: t.by_name && mask.count_ones() == 1 }
+        })
+        .collect()
+}
+
+/// keep connection requests to one victim >= 4 steps apart (see the tcp_capacity note in `strategy`)
+fn space_conns(conns: &mut Vec<(u32, PeerKind, usize)>, nv: usize) {
+    conns.sort_by_key(|c| c.0);
+    let mut last: BTreeMap<usize, u32> = BTreeMap::new();
+    conns.retain(|(st, _, v)| {
+        let ok = last.get(&(v % nv)).map(|l| *st >= l + 4).unwrap_or(true);
+        if ok {
+            last.insert(v % nv, *st);
+        }
+        ok
+    });
+}
+
+fn ctl_strategy() -> BoxedStrategy<Vec<(u32, Ctl)>> {
+    prop_oneof![
+        3 => (1u32..45, 0u32..10).prop_map(|(i, d)| vec![(i, Ctl::Crash), (i + d, Ctl::Bounce)]),
+        1 => (1u32..45).prop_map(|i| vec![(i, Ctl::Crash)]),
+        1 => (1u32..45).prop_map(|i| vec![(i, Ctl::Bounce)]),
+        2 => (1u32..25, 0u32..8, 1u32..15, 0u32..8).prop_map(|(i, d, e, g)| vec![(i, Ctl::Crash), (i + d, Ctl::Bounce), (i + d + e, Ctl::Crash), (i + d + e + g, Ctl::Bounce)]),
+        2 => (1u32..45, 0u32..6).prop_map(|(i, d)| vec![(i, Ctl::Crash), (i + d, Ctl::Crash), (i + d + 2, Ctl::Bounce)]),
+        // staggered crashes (overlapping target sets), one bounce, then more of the same
+        3 => (1u32..30, 0u32..6, 0u32..6, 0u32..12, 1u32..10).prop_map(|(i, d, e, g, h)| vec![(i, Ctl::Crash), (i + d, Ctl::Crash), (i + d + e, Ctl::Crash), (i + d + e + g, Ctl::Bounce), (i + d + e + g + h, Ctl::Crash)]),
+        // free histories
+        4 => (1u32..30, proptest::collection::vec((0u32..8, prop_oneof![3 => Just(Ctl::Crash), 2 => Just(Ctl::Bounce)]), 2..=6)).prop_map(|(i, v)| {
+            let mut at = i;
+            v.into_iter()
+                .map(|(gap, c)| {
+                    at += gap;
+                    (at, c)
+                })
+                .collect()
+        }),
+    ]
+    .boxed()
+}
+
 pub fn strategy() -> BoxedStrategy<Scenario> {
     (
         (1u32..=3, 1u32..=6, prop_oneof![1 => 1usize..=3, 2 => Just(64usize)], any::<u64>(), any::<bool>()),
         flags_strategy(),
-        proptest::collection::vec((1u32..40, prop_oneof![Just(PeerKind::Reader), Just(PeerKind::Writer), Just(PeerKind::Both), Just(PeerKind::Idle)], 0usize..2), 0..6),
+        proptest::collection::vec((1u32..40, prop_oneof![Just(PeerKind::Reader), Just(PeerKind::Writer), Just(PeerKind::Both), Just(PeerKind::Idle)], 0usize..MAX_VICT), 0..6),
         20u32..50,
-        prop_oneof![
-            3 => (1u32..45, 0u32..10).prop_map(|(i, d)| vec![(i, Ctl::Crash), (i + d, Ctl::Bounce)]),
-            1 => (1u32..45).prop_map(|i| vec![(i, Ctl::Crash)]),
-            1 => (1u32..45).prop_map(|i| vec![(i, Ctl::Bounce)]),
-            2 => (1u32..25, 0u32..8, 1u32..15, 0u32..8).prop_map(|(i, d, e, g)| vec![(i, Ctl::Crash), (i + d, Ctl::Bounce), (i + d + e, Ctl::Crash), (i + d + e + g, Ctl::Bounce)]),
-            1 => (1u32..45, 0u32..6).prop_map(|(i, d)| vec![(i, Ctl::Crash), (i + d, Ctl::Crash), (i + d + 2, Ctl::Bounce)]),
-        ],
+        ctl_strategy(),
+        (prop_oneof![2 => Just(1usize), 2 => Just(2usize), 4 => Just(3usize)], 0usize..6, proptest::collection::vec(target_strategy(), 6)),
     )
-        .prop_map(|((tick_ms, lat_ms, capacity, seed, v6), mut flags, mut conns, run_steps, ctl)| {
+        .prop_map(|((tick_ms, lat_ms, capacity, seed, v6), mut flags, mut conns, run_steps, ctl, (nvict, perm, raw_targets))| {
+            flags.two_victims = nvict >= 2;
             if capacity < 8 {
                 // a listener with more pending requests than tcp_capacity is a documented panic:
                 // keep the victims accepting and the requests apart
                 flags.accept = true;
-                if flags.two_victims {
+                if nvict >= 2 {
                     flags.outgoing = false;
+                    flags.outgoing_flood = false;
                 }
-                conns.sort_by_key(|c| c.0);
-                let mut last: BTreeMap<usize, u32> = BTreeMap::new();
-                let nv = if flags.two_victims { 2 } else { 1 };
-                conns.retain(|(st, _, v)| {
-                    let ok = last.get(&(v % nv)).map(|l| *st >= l + 4).unwrap_or(true);
-                    if ok {
-                        last.insert(v % nv, *st);
-                    }
-                    ok
-                });
+                space_conns(&mut conns, nvict);
             }
-            Scenario { tick_ms, lat_ms, capacity, seed, v6, flags, conns, run_steps, ctl, strict_known: false }
+            let targets = normalise_targets(&raw_targets, ctl.len(), nvict);
+            flags.by_regex = targets.iter().any(|t| !t.by_name);
+            Scenario { tick_ms, lat_ms, capacity, seed, v6, flags, conns, run_steps, ctl, strict_known: false, nvict, reg_order: nth_perm(nvict, perm), targets }
         })
         .boxed()
+}
+
+/// Histories around a peer writer that has used its whole send window: small tcp_capacity, a link
+/// latency of several ticks (so the window is on the wire most of the time), a victim that reads
+/// (or, dialling out, never reads), crash at any step, down for less / exactly / more than the
+/// latency, bounce, and a run long enough for whatever answers the stale segments to come back.
+pub fn strategy_parked() -> BoxedStrategy<Scenario> {
+    (
+        (1u32..=2, 2u32..=8, 1usize..=3, any::<u64>(), any::<bool>()),
+        (prop_oneof![3 => Just(StreamMode::Sink), 3 => Just(StreamMode::Echo), 1 => Just(StreamMode::Idle), 1 => Just(StreamMode::Writer)], any::<bool>(), any::<bool>(), any::<bool>()),
+        proptest::collection::vec((1u32..24, prop_oneof![3 => Just(PeerKind::Writer), 2 => Just(PeerKind::Both), 1 => Just(PeerKind::Reader)], 0usize..MAX_VICT), 1..5),
+        40u32..70,
+        prop_oneof![
+            4 => (2u32..34, 0u32..16).prop_map(|(i, d)| vec![(i, Ctl::Crash), (i + d, Ctl::Bounce)]),
+            1 => (2u32..34).prop_map(|i| vec![(i, Ctl::Bounce)]),
+            2 => (2u32..24, 0u32..12, 1u32..12, 0u32..12).prop_map(|(i, d, e, g)| vec![(i, Ctl::Crash), (i + d, Ctl::Bounce), (i + d + e, Ctl::Crash), (i + d + e + g, Ctl::Bounce)]),
+            1 => (2u32..30, 0u32..6, 0u32..12).prop_map(|(i, d, e)| vec![(i, Ctl::Crash), (i + d, Ctl::Crash), (i + d + e, Ctl::Bounce)]),
+        ],
+        (prop_oneof![3 => Just(1usize), 2 => Just(2usize), 1 => Just(3usize)], 0usize..6, proptest::collection::vec(target_strategy(), 4)),
+    )
+        .prop_map(|((tick_ms, lat_ms, capacity, seed, v6), (stream_mode, bg_tasks, udp, flood), mut conns, run_steps, ctl, (nvict, perm, raw_targets))| {
+            let outgoing = flood && nvict == 1;
+            let targets = normalise_targets(&raw_targets, ctl.len(), nvict);
+            let flags = Flags {
+                accept: true,
+                stream_mode,
+                bg_tasks,
+                udp,
+                multicast: false,
+                fs: false,
+                outgoing,
+                two_victims: nvict >= 2,
+                by_regex: targets.iter().any(|t| !t.by_name),
+                outgoing_flood: outgoing,
+            };
+            space_conns(&mut conns, nvict);
+            Scenario { tick_ms, lat_ms, capacity, seed, v6, flags, conns, run_steps, ctl, strict_known: false, nvict, reg_order: nth_perm(nvict, perm), targets }
+        })
+        .boxed()
+}
+
+/// Every registration order of three victims x every pair of crash target sets: crash(set 1), later
+/// crash(set 2) (so that set 2 meets hosts that are already down at every position of the resolution
+/// order), then one bounce of all three by regex (a mix of down and running hosts).
+fn target_order_space(tier: Tier) -> Vec<Scenario> {
+    let flags = Flags { accept: true, stream_mode: StreamMode::Echo, bg_tasks: true, udp: true, multicast: true, fs: false, outgoing: false, two_victims: true, by_regex: true, outgoing_flood: false };
+    let conns = vec![(2, PeerKind::Both, 0), (3, PeerKind::Both, 1), (4, PeerKind::Reader, 2), (9, PeerKind::Writer, 1)];
+    let timings: Vec<(u32, u32)> = if tier == Tier::Thorough { vec![(3, 0), (4, 2), (7, 0), (7, 1), (7, 4), (10, 1), (12, 6)] } else { vec![(4, 0), (7, 0), (7, 3), (10, 1)] };
+    let mut out = Vec::new();
+    for perm in 0..6usize {
+        for m1 in 1u8..8 {
+            for m2 in 1u8..8 {
+                for (i, d) in &timings {
+                    let by_name = (perm + m1 as usize + m2 as usize) % 2 == 0;
+                    out.push(Scenario {
+                        tick_ms: 1,
+                        lat_ms: 2,
+                        capacity: 64,
+                        seed: perm as u64,
+                        v6: (m1 + m2) % 2 == 1,
+                        flags: flags.clone(),
+                        conns: conns.clone(),
+                        run_steps: 24,
+                        ctl: vec![(*i, Ctl::Crash), (i + d, Ctl::Crash), (i + d + 4, Ctl::Bounce)],
+                        strict_known: false,
+                        nvict: 3,
+                        reg_order: nth_perm(3, perm),
+                        targets: normalise_targets(&[Target { mask: m1, by_name }, Target { mask: m2, by_name: !by_name }, Target { mask: 0b111, by_name: false }], 3, 3),
+                    });
+                }
+            }
+        }
+    }
+    out
+}
+
+/// A peer writer with a full send window: crash after every step x downtimes below, at and above the
+/// link latency, for reading victims (window on the wire), and a dialling victim that never reads.
+fn parked_writer_space(tier: Tier) -> Vec<Scenario> {
+    let caps: Vec<usize> = if tier == Tier::Thorough { vec![1, 2, 3] } else { vec![1, 2] };
+    let lats: Vec<u32> = if tier == Tier::Thorough { vec![2, 3, 4, 5, 7] } else { vec![2, 3, 5] };
+    let mut out = Vec::new();
+    for cap in &caps {
+        for lat in &lats {
+            for shape in 0..3 {
+                let (mode, outgoing, conns) = match shape {
+                    0 => (StreamMode::Sink, false, vec![(2, PeerKind::Writer, 0)]),
+                    1 => (StreamMode::Echo, false, vec![(2, PeerKind::Both, 0), (7, PeerKind::Writer, 0)]),
+                    _ => (StreamMode::Echo, true, vec![]),
+                };
+                let flags = Flags { accept: true, stream_mode: mode, bg_tasks: false, udp: false, multicast: false, fs: false, outgoing, two_victims: false, by_regex: false, outgoing_flood: outgoing };
+                for i in 3u32..=22 {
+                    for d in [0, 1, *lat, lat + 1, lat + 5] {
+                        out.push(Scenario {
+                            tick_ms: 1,
+                            lat_ms: *lat,
+                            capacity: *cap,
+                            seed: shape as u64,
+                            v6: false,
+                            flags: flags.clone(),
+                            conns: conns.clone(),
+                            run_steps: 40,
+                            ctl: vec![(i, Ctl::Crash), (i + d, Ctl::Bounce)],
+                            strict_known: false,
+                            nvict: 1,
+                            reg_order: vec![0],
+                            targets: vec![],
+                        });
+                    }
+                }
+            }
+        }
+    }
+    out
 }
 
 /// Crash after every step of a set of small workloads, several downtimes.
@@ -1065,14 +1423,17 @@ fn exhaustive_space(tier: Tier) -> Vec<Scenario> {
                         run_steps,
                         ctl: vec![(i, Ctl::Crash), (i + d, Ctl::Bounce)],
                         strict_known: false,
+                        nvict: 0,
+                        reg_order: vec![],
+                        targets: vec![],
                     });
                 }
                 if tier == Tier::Thorough {
                     // two cycles, and bounce without crash
-                    out.push(Scenario { tick_ms: 1, lat_ms: lat, capacity: *cap, seed: wi as u64, v6: wi % 2 == 1, flags: flags.clone(), conns: conns.clone(), run_steps, ctl: vec![(i, Ctl::Crash), (i + 2, Ctl::Bounce), (i + 6, Ctl::Crash), (i + 7, Ctl::Bounce)], strict_known: false });
+                    out.push(Scenario { tick_ms: 1, lat_ms: lat, capacity: *cap, seed: wi as u64, v6: wi % 2 == 1, flags: flags.clone(), conns: conns.clone(), run_steps, ctl: vec![(i, Ctl::Crash), (i + 2, Ctl::Bounce), (i + 6, Ctl::Crash), (i + 7, Ctl::Bounce)], strict_known: false, nvict: 0, reg_order: vec![], targets: vec![] });
                 }
                 if i % 3 == 0 {
-                    out.push(Scenario { tick_ms: 1, lat_ms: lat, capacity: *cap, seed: wi as u64, v6: wi % 2 == 1, flags: flags.clone(), conns: conns.clone(), run_steps, ctl: vec![(i, Ctl::Bounce)], strict_known: false });
+                    out.push(Scenario { tick_ms: 1, lat_ms: lat, capacity: *cap, seed: wi as u64, v6: wi % 2 == 1, flags: flags.clone(), conns: conns.clone(), run_steps, ctl: vec![(i, Ctl::Bounce)], strict_known: false, nvict: 0, reg_order: vec![], targets: vec![] });
                 }
             }
         }
@@ -1083,40 +1444,37 @@ fn exhaustive_space(tier: Tier) -> Vec<Scenario> {
 /// Clamp a structurally decoded scenario into the generator's domain (fuzz tier).
 pub fn fuzz_sanitize(sc: &mut Scenario) -> bool {
     sc.tick_ms = 1 + sc.tick_ms % 3;
-    sc.lat_ms = 1 + sc.lat_ms % 6;
+    sc.lat_ms = 1 + sc.lat_ms % 8;
     sc.capacity = if sc.capacity % 4 == 0 { 64 } else { sc.capacity % 4 };
     sc.strict_known = false;
-    sc.run_steps = 20 + sc.run_steps % 30;
+    sc.run_steps = 20 + sc.run_steps % 50;
+    sc.nvict = 1 + sc.nvict % MAX_VICT;
+    let nv = sc.nvict;
+    sc.flags.two_victims = nv >= 2;
+    sc.reg_order = reg_order_of(sc, nv);
     sc.flags.multicast &= sc.flags.udp;
     sc.flags.outgoing_flood &= sc.flags.outgoing;
     sc.conns.truncate(5);
     for c in sc.conns.iter_mut() {
         c.0 = 1 + c.0 % 39;
-        c.2 %= 2;
+        c.2 %= nv;
     }
     if sc.capacity < 8 {
         sc.flags.accept = true;
-        if sc.flags.two_victims {
+        if nv >= 2 {
             sc.flags.outgoing = false;
             sc.flags.outgoing_flood = false;
         }
-        sc.conns.sort_by_key(|c| c.0);
-        let nv = if sc.flags.two_victims { 2 } else { 1 };
-        let mut last: BTreeMap<usize, u32> = BTreeMap::new();
-        sc.conns.retain(|(st, _, v)| {
-            let ok = last.get(&(v % nv)).map(|l| *st >= l + 4).unwrap_or(true);
-            if ok {
-                last.insert(v % nv, *st);
-            }
-            ok
-        });
+        space_conns(&mut sc.conns, nv);
     }
-    sc.ctl.truncate(4);
+    sc.ctl.truncate(6);
     let mut at = 0u32;
     for c in sc.ctl.iter_mut() {
         at += 1 + c.0 % 12;
-        c.0 = at.min(48);
+        c.0 = at.min(68);
     }
+    sc.targets = normalise_targets(&sc.targets, sc.ctl.len(), nv);
+    sc.flags.by_regex = sc.targets.iter().any(|t| !t.by_name);
     !sc.ctl.is_empty()
 }
 
@@ -1131,13 +1489,28 @@ fn check(tier: Tier, seed: u64) -> i32 {
         if tier == Tier::Thorough { " and a second crash/bounce cycle" } else { "" }
     );
     ctx.exhaustive("crash-at-every-step", &desc, Box::new(space.into_iter()), &run);
-    ctx.random("random", tier.pick(3000, 50_000), &|| strategy(), &run);
+    let space = target_order_space(tier);
+    let desc = format!(
+        "{} scenarios: three victims in each of the 6 registration orders x every pair (A, B) of the 7 non-empty victim subsets x {} timings: Sim::crash(A), then Sim::crash(B), then Sim::bounce(all three by one regex); a subset of one host is addressed by name or by regex, larger ones by one regex, so B meets already-crashed hosts at every position of its resolution order",
+        space.len(),
+        tier.pick(4, 7)
+    );
+    ctx.exhaustive("crash-target-orders", &desc, Box::new(space.into_iter()), &run);
+    let space = parked_writer_space(tier);
+    let desc = format!(
+        "{} scenarios: tcp_capacity x latency x (sink victim + writer peer / echo victim + two peers / dialling victim that never reads + flooding acceptor), a crash after EVERY step 3..22, bounce after 0, 1, latency, latency + 1 and latency + 5 steps, 40 + settle steps in all",
+        space.len()
+    );
+    ctx.exhaustive("parked-writer-downtimes", &desc, Box::new(space.into_iter()), &run);
+    ctx.random("random", tier.pick(4000, 50_000), &|| strategy(), &run);
+    ctx.random("random-parked-writers", tier.pick(3000, 40_000), &|| strategy_parked(), &run);
     ctx.finish(
-        "fault enumeration: crash after every step of small workloads x downtimes (see exhaustive_subspaces) plus random workloads/schedules (1-2 victims, flags for accept loop, stream mode, background tasks, UDP, multicast, fs, outgoing connection; 0-5 peer connections of reader/writer/both/idle kind; crash, bounce, repeated cycles, double crash, bounce without crash; tcp_capacity 1-3 or 64). Oracle: when Sim::crash returns no task guard of the victim is alive and its UDP/TCP/multicast tables are empty (hook H1); while down its progress counters are frozen and it emits no Send event; peers blocked on established streams or with a SYN queued at the victim are unblocked with EOF/ConnectionReset/ConnectionRefused within latency + 3 steps; connects and datagrams that arrive during the downtime never reach the new incarnation; each bounce calls the software factory exactly once and the new incarnation re-binds its fixed TCP and UDP ports and accepts again; bystander hosts' logs equal a crash-free twin run. Non-trivial = at a crash the victim had an established stream, a pending connect or a blocked peer writer, or multicast/fs activity, or datagrams arrived during the downtime. Distinct by scenario hash.",
+        "fault enumeration: crash after every step of small workloads x downtimes, every registration order x pair of crash target sets for three victims, crash at every step x downtime around a peer writer with a full send window (see exhaustive_subspaces), plus random workloads/schedules (1-3 victims registered in any order, flags for accept loop, stream mode, background tasks, UDP, multicast, fs, outgoing connection; 0-5 peer connections of reader/writer/both/idle kind; histories of 1-6 crash / bounce calls, each with its own target: one victim by name, one victim by regex, any subset of the victims by one regex - so calls meet hosts that are already down or still up in every mix; repeated cycles, double crash, bounce without crash; tcp_capacity 1-3 or 64; sub 'random-parked-writers': tcp_capacity 1-3, latency 2-8 ms, reading victims, writer peers, downtimes 0-15 steps). Oracle: when Sim::crash returns, EVERY addressed victim has no live task guard, empty UDP/TCP/multicast tables (hook H1) and is_host_running false, and every victim that was not addressed has the same guards, factory-call count and running state as before; while down its progress counters are frozen and it emits no Send event; peers blocked on established streams or with a SYN queued at the victim are unblocked with EOF/ConnectionReset/ConnectionRefused within latency + 3 steps; a peer writer that was parked on flow control when the host went down and is not released by the crash itself (known finding F-C04-2 while it is listed as known) must be released within latency + 3 steps of the first step the host runs again after the window's segments have arrived; connects and datagrams that arrive during the downtime never reach the new incarnation; each bounce calls the software factory of each addressed victim exactly once and the new incarnation re-binds its fixed TCP and UDP ports and accepts again; bystander hosts' logs and the peer's connections to never-addressed victims equal a crash-free twin run. Non-trivial = at a crash the victim had an established stream, a pending connect or a blocked peer writer, or multicast/fs activity, or datagrams arrived during the downtime. Distinct by scenario hash.",
         &[
-            "fixed latency >= 1 ms, fail_rate 0, fixed host order (needed for the twin comparison)",
+            "fixed latency >= 1 ms, fail_rate 0, fixed host order (bystanders, peer, then the victims in the generated order; needed for the twin comparison)",
             "victims' main futures never return (hosts whose software finished are outside the claim)",
             "events that arrive in the very first step of a new incarnation are not asserted either way",
+            "a peer writer parked on a host that is down and never bounced (or bounced too late in the run to see the answer) is not asserted while F-C04-2 is known",
         ],
     )
 }
